@@ -314,13 +314,6 @@ Example pin_tok_out__datetime_to_unicode : tok_out__datetime_to_unicode =
      (t "call:._get_datetime_format");
      (t "op:Is");
      (t "call:.isoformat");
-     (t "op:And");
-     (t "call:isinstance");
-     (t "call:.decode");
-     (t "call:.strftime");
-     (t "call:.encode");
-     (t "s:utf8");
-     (t "s:utf8");
      (t "call:.strftime");
      (t "op:Is");
      (t "op:IsNot");
